@@ -68,17 +68,43 @@ def gen_case(rng, i):
     else:
         loss = rng.choice([None, None, None, 0, 0, 1, 0.3, 0.5])
     case = {"kind": kind, "flavour": flavour, "arrivals": arr, "delays": delays, "loss": loss,
-            "rseed": rng.randrange(1 << 30), "stat": stat}
+            "rseed": rng.randrange(1 << 30), "stat": stat,
+            "t0": 0 if stat else rng.choice([0, 0, 0, 2 ** 20, 2 ** 30 if flavour == "exact" else 1.7e9])}
+    for a in arr:
+        a["t"] += case["t0"]
+    if kind == "wire" and not stat and rng.random() < 0.15:
+        # the loss rate is reconfigured while the simulation runs, at quiet moments between phases
+        case["phases"] = [rng.choice([None, 0, 1, 1]) for _ in range(3)]
+        case["loss"] = case["phases"][0]
+        per = max(1, len(arr) // 3)
+        span = 0
+        for k, a in enumerate(arr):
+            a["phase"] = min(2, k // per)
+        gap = max(delays) * 2 + 50
+        shift, last_phase = 0, 0
+        base = None
+        for a in arr:
+            if a["phase"] != last_phase:
+                shift += gap
+                last_phase = a["phase"]
+            a["t"] += shift
+        case["phase_gap"] = gap
     if kind == "cable":
         case["arrivals2"] = vnet.gen_arrivals(rng, 3, flavour, rng.randint(2, 40), [100, 500], None)
         case["loss"] = rng.choice([None, None, 0])
     return case
 
 
+def close_ulps(a, b, n=16):
+    """equal up to a few units in the last place of the larger magnitude (a *relative* tolerance would be blind
+    on large clock values: 1e-9 * 1.7e9 seconds is more than any delay)"""
+    return a == b or abs(a - b) <= n * math.ulp(max(abs(a), abs(b), 1e-300))
+
+
 def check_direction(case, entered, delivered, delays_of, viol, stats, name):
     """entered: [(seq, t, uid)], delivered: [(seq, t, uid)]; delays_of(k_delivered, k_entered, deq_instant)"""
     exact = case["flavour"] == "exact"
-    eq = (lambda a, b: a == b) if exact else vnet.close
+    eq = (lambda a, b: a == b) if exact else close_ulps
     pos = {u: i for i, (_, _, u) in enumerate(entered)}
     seen = set()
     last_i = -1
@@ -125,9 +151,13 @@ def check_direction(case, entered, delivered, delays_of, viol, stats, name):
 def run_case(case, stats):
     from onl.netdev import Wire, Cable
     viol = []
-    net = vnet.Net()
+    net = vnet.Net(case.get("t0", 0))
     env = net.env
     random.seed(case["rseed"])
+    if case.get("t0"):
+        stats["big_clock_cases"] += 1
+    if case["kind"] == "wire" and "phases" in case:
+        return run_phased(case, stats, net)
     if case["kind"] == "wire":
         delay = vnet.Script(case["delays"], net, "delay")
         w = Wire(env, delay, case["loss"])
@@ -200,8 +230,9 @@ def run_case(case, stats):
                                  {"n": n, "lost": lost, "rate": loss}))
     else:
         stats["cable_cases"] += 1
-        f = (lambda: (int(env.now * 4) % 5) * 0.5 + 0.25) if case["flavour"] == "exact" else \
-            (lambda: ((env.now * 7.3) % 2.0) + 0.1)
+        t00 = case.get("t0", 0)
+        f = (lambda: (int((env.now - t00) * 4) % 5) * 0.5 + 0.25) if case["flavour"] == "exact" else \
+            (lambda: (((env.now - t00) * 7.3) % 2.0) + 0.1)
         cab = Cable(env, f, case["loss"])
         d1, d2 = net.recorder("dev1"), net.recorder("dev2")
         cab.set_endpoints(d1, d2)
@@ -218,6 +249,7 @@ def run_case(case, stats):
             return viol
 
         def fn(t):
+            t = t - t00
             return (int(t * 4) % 5) * 0.5 + 0.25 if case["flavour"] == "exact" else ((t * 7.3) % 2.0) + 0.1
         for wname, dname in (("w1", "dev2"), ("w2", "dev1")):
             entered = [(e[0], e[2], e[5]) for e in net.tape.of(wname, "in")]
@@ -229,7 +261,51 @@ def run_case(case, stats):
     return viol
 
 
-KEYS = ("loss_seed_comparisons", "deliveries_checked", "held_back_by_predecessor", "arrived_during_propagation", "loss_all_cases",
+def run_phased(case, stats, net):
+    """loss rate changed between phases (through the public attribute); each phase must follow its own rate"""
+    from onl.netdev import Wire
+    viol = []
+    env = net.env
+    delay = vnet.Script(case["delays"], net, "delay")
+    w = Wire(env, delay, case["phases"][0])
+    sink = net.recorder("sink")
+    w.out = sink
+    net.tap_put(w, "wire")
+    for a in case["arrivals"]:
+        a["drv"] = 0
+    phase_of = {}
+    net.driver(w, case["arrivals"], on_inject=lambda p, a: phase_of.__setitem__(net.pk.uid[id(p)], a["phase"]))
+    bounds = []
+    for ph in (1, 2):
+        first = min((a["t"] for a in case["arrivals"] if a["phase"] == ph), default=None)
+        if first is not None:
+            bounds.append((first - case["phase_gap"] / 2, ph))
+
+    def reconf():
+        for t, ph in bounds:
+            if t > env.now:
+                yield env.timeout(t - env.now)
+            w.loss_rate = case["phases"][ph]
+    env.process(reconf())
+    err = net.run()
+    if err:
+        viol.append((err, "the run raised", net.errors[-1] if net.errors else err))
+        return viol
+    stats["loss_reconfigured_cases"] += 1
+    delivered = {e[5] for e in net.tape.of("sink", "out")}
+    for ph in (0, 1, 2):
+        us = [u for u, p in phase_of.items() if p == ph]
+        got = sum(1 for u in us if u in delivered)
+        rate = case["phases"][ph]
+        want = 0 if rate == 1 else len(us)
+        if got != want:
+            viol.append(("loss-rate-change-ignored", "after wire.loss_rate was changed between two quiet phases the wire did not follow the new rate",
+                         {"phase": ph, "rate": rate, "entered": len(us), "delivered": got, "phases": case["phases"]}))
+            break
+    return viol
+
+
+KEYS = ("big_clock_cases", "loss_reconfigured_cases", "loss_seed_comparisons", "deliveries_checked", "held_back_by_predecessor", "arrived_during_propagation", "loss_all_cases",
         "loss_none_cases", "loss_stat_packets", "cable_cases")
 
 
